@@ -25,7 +25,7 @@ def main(argv=None):
     res3 = chanworld.run(ck, [("channel.HTTPChannel.received", "IO")])
     world.report(ck, res3, select=lambda n: "received@IO/loop0" in n or "received@IO/coverage" in n or "received@IO/raises" in n)
     # 4. trailer lines: the statement requires a malformed trailer line to be refused
-    rep = ck.native("trailer", {"trailers": ["X-Ok: 1", "foo", "a b: c", "bad\x00name: v"]})
+    rep = ck.native("trailer", {"trailers": ["X-Ok: 1", "foo", "a b: c", "bad\x00name: v", "X-A: 1\nX-B: 2", "X-A: 1\rX-B: 2", "X-A: 1\n", "\nX-A: 1"]})
     accepted_bad = [r["trailer"] for r in rep.get("results", []) if r["accepted"] and r["trailer"] != "X-Ok: 1"]
     name = "receiver.ChunkedReceiver.received/structural:trailer-lines-pass-the-header-line-gate"
     if "results" not in rep:
